@@ -48,7 +48,15 @@ class Helper:
 
 def R_T(seed):
     import quimb.tensor as qtn
-    return qtn.Tensor(_c(_rng(seed), (2, 3, 2, 1)), inds=("a", "b", "c", "d"), tags=("P", "Q"))
+    return qtn.Tensor(_c(_rng(seed), (2, 3, 2, 2)), inds=("a", "b", "c", "d"), tags=("P", "Q"))
+
+
+T_SIZES = {"a": 2, "b": 3, "c": 2, "d": 2}
+
+
+def R_Tsq(seed):
+    import quimb.tensor as qtn
+    return qtn.Tensor(_c(_rng(seed), (2, 1, 3, 1)), inds=("a", "s", "b", "u"), tags=("P", "Q"))
 
 
 def R_Tleft(seed):
@@ -99,14 +107,20 @@ def R_TN(seed):
     return _ring(seed, exponent=0.5)
 
 
-def R_TNline(seed):
+def R_TNline(seed, bonds=(3, 3, 2)):
     import quimb.tensor as qtn
     r = _rng(seed, 2)
-    ts = [qtn.Tensor(_c(r, (2, 3)), inds=("k0", "b0"), tags=("I0",)),
-          qtn.Tensor(_c(r, (3, 2, 3)), inds=("b0", "k1", "b1"), tags=("I1",)),
-          qtn.Tensor(_c(r, (3, 2, 2)), inds=("b1", "k2", "b2"), tags=("I2",)),
-          qtn.Tensor(_c(r, (2, 2)), inds=("b2", "k3"), tags=("I3",))]
+    b0, b1, b2 = bonds
+    ts = [qtn.Tensor(_c(r, (2, b0)), inds=("k0", "b0"), tags=("I0",)),
+          qtn.Tensor(_c(r, (b0, 2, b1)), inds=("b0", "k1", "b1"), tags=("I1",)),
+          qtn.Tensor(_c(r, (b1, 2, b2)), inds=("b1", "k2", "b2"), tags=("I2",)),
+          qtn.Tensor(_c(r, (b2, 2)), inds=("b2", "k3"), tags=("I3",))]
     return qtn.TensorNetwork(ts)
+
+
+def R_TNfit(seed):
+    """a chain without redundant bond dimensions (the ALS normal equations stay regular)"""
+    return R_TNline(seed, bonds=(2, 2, 2))
 
 
 def R_TNhyper(seed):
@@ -179,6 +193,13 @@ def R_TNV(seed):
     _seed(seed)
     tn = qtn.TN_from_edges_rand(_K4, D=2, phys_dim=2, seed=seed + 3, dtype="complex128")
     return U.detlabels(tn, "b")
+
+
+def R_TNVprod(seed):
+    """no bonds at all"""
+    import quimb.tensor as qtn
+    r = _rng(seed, 9)
+    return qtn.TN_from_sites_product_state({i: _c(r, (2,)) for i in range(3)})
 
 
 def R_TNO(seed):
@@ -308,36 +329,42 @@ def _split_opts():
 def _tensor_table():
     T = {}
     k = lambda n: ("Tensor", n)  # noqa
+    SZ = T_SIZES
+    each = lambda mk: [mk(ix, SZ[ix]) for ix in sorted(SZ)]  # noqa -- one case per label of the receiver
+    other = lambda x, h: R_T(h.seed + 50).transpose("d", "b", "a", "c")  # noqa -- same labels, other numbers, other storage
     T[k("astype")] = [Case("T", A("complex64")), Case("Treal", A("float32"))]
     T[k("collapse_repeated")] = [Case("Trep"), Case("T")]
     T[k("conj")] = [Case("T"), Case("Tleft")]
-    T[k("direct_product")] = [Case("T", lambda x, h: ((R_T(h.seed + 50),), {"sum_inds": ("a", "d")})),
-                              Case("T", lambda x, h: ((R_T(h.seed + 50),), {}))]
-    T[k("flip")] = [Case("T", A("b")), Case("T", A("c"))]
-    T[k("fuse")] = [Case("T", A({"ac": ("a", "c")})), Case("T", A({"ba": ("b", "a"), "dc": ("d", "c")}))]
-    T[k("gate")] = [Case("T", lambda x, h: ((h.G(2), "a"), {})), Case("T", lambda x, h: ((h.G(3), "b"), {"transpose": True}))]
-    T[k("isel")] = [Case("T", A({"b": 1})), Case("T", A({"a": 0, "c": slice(0, 1)}))]
-    T[k("isometrize")] = [Case("T", A(left_inds=("a", "c", "d"))), Case("T", A(left_inds=("b", "a"), method="svd"), gauge=False),
-                          Case("Tleft", A(method="exp"))]
+    T[k("direct_product")] = [Case("T", lambda x, h: ((other(x, h),), {"sum_inds": ("a", "d")})),
+                              Case("T", lambda x, h: ((other(x, h),), {})),
+                              Case("T", lambda x, h: ((other(x, h),), {"sum_inds": ("c",)}))]
+    T[k("flip")] = each(lambda ix, d: Case("T", A(ix), label="T " + ix))
+    T[k("fuse")] = [Case("T", A({"ac": ("a", "c")})), Case("T", A({"ba": ("b", "a"), "dc": ("d", "c")})), Case("T", A({"dab": ("d", "a", "b")}))]
+    T[k("gate")] = (each(lambda ix, d: Case("T", (lambda x, h, ix=ix, d=d: ((h.G(d), ix), {})), label="T " + ix))
+                    + each(lambda ix, d: Case("T", (lambda x, h, ix=ix, d=d: ((h.G(d), ix), {"transpose": True})), label="T %s transpose" % ix))
+                    + [Case("T", lambda x, h: ((h.G(3), "b"), {"preserve_inds": False}), label="T b no-preserve")])
+    T[k("isel")] = each(lambda ix, d: Case("T", A({ix: d - 1}), label="T " + ix)) + [Case("T", A({"a": 0, "c": slice(0, 1)}))]
+    T[k("isometrize")] = [Case("T", A(left_inds=("a", "c", "d"))), Case("T", A(left_inds=("b", "a"), method="svd")),
+                          Case("Tleft", A(method="exp")), Case("T", A(left_inds=("d", "b", "c")))]
     T[k("unitize")] = [Case("T", A(left_inds=("c", "a", "d"))), Case("Tleft", A(method="cayley"))]
-    T[k("moveindex")] = [Case("T", A("c", 0)), Case("T", A("a", -1))]
-    T[k("multiply_index_diagonal")] = [Case("T", lambda x, h: (("b", h.vec(3)), {}))]
+    T[k("moveindex")] = each(lambda ix, d: Case("T", A(ix, 0), label="T %s->0" % ix)) + each(lambda ix, d: Case("T", A(ix, -1), label="T %s->-1" % ix))
+    T[k("multiply_index_diagonal")] = each(lambda ix, d: Case("T", (lambda x, h, ix=ix, d=d: ((ix, h.vec(d)), {})), label="T " + ix))
     T[k("negate")] = [Case("T"), Case("Tleft")]
-    T[k("new_ind_pair_diag")] = [Case("T", A("b", "x", "y"))]
-    T[k("new_ind_pair_with_identity")] = [Case("T", A("x", "y", 2))]
+    T[k("new_ind_pair_diag")] = each(lambda ix, d: Case("T", A(ix, "x", "y"), label="T " + ix))
+    T[k("new_ind_pair_with_identity")] = [Case("T", A("x", "y", 2)), Case("Tleft", A("x", "y", 3))]
     T[k("normalize")] = [Case("T"), Case("Treal")]
-    T[k("rand_reduce")] = [Case("T", A("b", seed=7), rnd=True)]
+    T[k("rand_reduce")] = each(lambda ix, d: Case("T", A(ix, seed=7), rnd=True, label="T " + ix))
     T[k("randomize")] = [Case("T", A(seed=7), rnd=True), Case("T", A(dtype="float64", seed=3), rnd=True)]
-    T[k("reindex")] = [Case("T", A({"a": "z", "c": "a"})), Case("Tleft", A({"a": "z"}))]
-    T[k("retag")] = [Case("T", A({"P": "R"}))]
-    T[k("squeeze")] = [Case("T"), Case("T", A(exclude=("d",)))]
-    T[k("sum_reduce")] = [Case("T", A("b")), Case("T", A("a"))]
-    T[k("symmetrize")] = [Case("T", A("a", "c"))]
+    T[k("reindex")] = [Case("T", A({"a": "z", "c": "a"})), Case("Tleft", A({"a": "z"})), Case("T", A({"d": "b", "b": "d"}))]
+    T[k("retag")] = [Case("T", A({"P": "R"})), Case("Tleft", A({"P": "R", "X": "Y"}))]
+    T[k("squeeze")] = [Case("Tsq"), Case("Tsq", A(exclude=("u",))), Case("Tsq", A(include=("s",))), Case("T")]
+    T[k("sum_reduce")] = each(lambda ix, d: Case("T", A(ix), label="T " + ix))
+    T[k("symmetrize")] = [Case("T", A("a", "c")), Case("T", A("d", "a")), Case("T", A("c", "d"))]
     T[k("to")] = [Case("T", A(dtype="complex64")), Case("T", A("numpy-complex64"))]
-    T[k("transpose")] = [Case("T", A("c", "a", "d", "b")), Case("Tleft", A("b", "c", "a"))]
-    T[k("transpose_like")] = [Case("T", lambda x, h: ((R_T(h.seed + 50).transpose("d", "b", "a", "c"),), {}))]
-    T[k("unfuse")] = [Case("Tfused", A({"ab": ("a", "b")}, {"ab": (2, 3)}))]
-    T[k("vector_reduce")] = [Case("T", lambda x, h: (("b", h.vec(3)), {}))]
+    T[k("transpose")] = [Case("T", A("c", "a", "d", "b")), Case("Tleft", A("c", "b", "a")), Case("Tleft", A("b", "c", "a")), Case("T", A("d", "c", "b", "a"))]
+    T[k("transpose_like")] = [Case("T", lambda x, h: ((other(x, h),), {})), Case("T", lambda x, h: ((R_T(h.seed + 50).transpose("b", "a", "d", "c"),), {}))]
+    T[k("unfuse")] = [Case("Tfused", A({"ab": ("a", "b")}, {"ab": (2, 3)})), Case("Tfused", A({"ab": ("b", "a")}, {"ab": (3, 2)}))]
+    T[k("vector_reduce")] = each(lambda ix, d: Case("T", (lambda x, h, ix=ix, d=d: ((ix, h.vec(d)), {})), label="T " + ix))
     T[("PTensor", "conj")] = [Case("PT")]
     return T
 
@@ -362,10 +389,10 @@ def _tn_table():
                                 Case("TN", A(("I1", "I2"), ("k1", "b0"), 1e-12, method="svd", right_inds=("k2", "b2"), absorb="left"), gauge=True)]
     T[k("gate_inds_with_tn")] = [Case("TN", lambda x, h: ((("k0", "k1"), qtn.TensorNetwork([qtn.Tensor(h.G(4).reshape(2, 2, 2, 2), inds=("o0", "o1", "i0", "i1"), tags=("G",))]),
                                                           ("i0", "i1"), ("o0", "o1")), {}))]
-    T[k("compress_all")] = [Case("TN", A(max_bond=2), gauge=True), Case("TNline", A(cutoff=0.0), gauge=True)]
+    T[k("compress_all")] = [Case("TN", A(max_bond=2), gauge=True, orderdep="truncation"), Case("TNline", A(cutoff=0.0), gauge=True)]
     T[k("compress_all_tree")] = [Case("TNline", A(cutoff=0.0), gauge=True)]
-    T[k("compress_all_1d")] = [Case("TNline", A(cutoff=0.0), gauge=True), Case("MPS", A(max_bond=3), gauge=True)]
-    T[k("compress_all_simple")] = [Case("TN", A(max_bond=2, max_iterations=3), gauge=True)]
+    T[k("compress_all_1d")] = [Case("TNline", A(cutoff=0.0), gauge=True), Case("MPS", A(max_bond=3), gauge=True, orderdep="truncating sweep")]
+    T[k("compress_all_simple")] = [Case("TN", A(max_bond=2, max_iterations=3), gauge=True, orderdep="truncation")]
     T[k("canonize_around")] = [Case("TN", A("I0"), gauge=True), Case("TNline", A("I2", absorb="left"), gauge=True)]
     T[k("gauge_all_canonize")] = [Case("TN", A(max_iterations=2), gauge=True)]
     T[k("gauge_all_simple")] = [Case("TN", A(max_iterations=3), gauge=True)]
@@ -385,8 +412,9 @@ def _tn_table():
                              Case("TN", A(("I0", "I1", "I2", "I3"), which="any"), collapse=True)]
     T[k("contract")] = [Case("TN", A(), collapse=True), Case("TN", A("EVEN")), Case("TN", A(output_inds=("k0", "k3")), collapse=True),
                         Case("TNhyper", A(("I0", "I1")))]
-    T[k("insert_compressor_between_regions")] = [Case("TN", A(("I0", "I1"), ("I2", "I3"), max_bond=2), gauge=True)]
-    T[k("fit")] = [Case("TNline", lambda x, h: ((R_TNline(h.seed + 50),), {"steps": 3, "tol": 0.0}), gauge=True, permtol=1e-6)]
+    T[k("insert_compressor_between_regions")] = [Case("TN", A(("I0", "I1"), ("I2", "I3"), max_bond=2), gauge=True, orderdep="truncation")]
+    T[k("fit")] = [Case("TNfit", lambda x, h: ((R_TNline(h.seed + 50, bonds=(2, 4, 2)),), {"steps": 3, "tol": 0.0}), gauge=True, permtol=1e-6,
+                        orderdep="unconverged alternating sweeps")]
     T[k("squeeze")] = [Case("TNmulti"), Case("TNmulti", A(fuse=True)), Case("TNmulti", A(exclude=("o",)))]
     T[k("isometrize")] = [Case("TNleft"), Case("TNleft", A(method="svd"))]
     T[k("unitize")] = [Case("TNleft"), Case("TNleft", A(method="exp"))]
@@ -487,9 +515,9 @@ def _2d3d_table():
     T[t2("contract_boundary_from_ymax")] = [Case("TN2D", A((2, 1), max_bond=8, mode="full-bond"), gauge=True)]
     T[t2("contract_boundary")] = [Case("TN2D", A(max_bond=8), collapse=True, gauge=True), Case("TN2D", A(max_bond=8, final_contract=False), gauge=True)]
     T[t2("contract_mps_sweep")] = [Case("TN2D", A(max_bond=8, direction="xmin"), gauge=True, collapse=True)]
-    T[t2("coarse_grain_hotrg")] = [Case("TN2Dbig", A("x", max_bond=4), gauge=True)]
-    T[t2("contract_hotrg")] = [Case("TN2Dbig", A(max_bond=4), collapse=True, gauge=True), Case("TN2Dbig", A(max_bond=4, final_contract=False), gauge=True)]
-    T[t2("contract_ctmrg")] = [Case("TN2Dbig", A(max_bond=4), collapse=True, gauge=True), Case("TN2Dbig", A(max_bond=4, final_contract=False), gauge=True)]
+    T[t2("coarse_grain_hotrg")] = [Case("TN2Dbig", A("x", max_bond=4), gauge=True, orderdep="truncation")]
+    T[t2("contract_hotrg")] = [Case("TN2Dbig", A(max_bond=4), collapse=True, gauge=True, orderdep="truncation"), Case("TN2Dbig", A(max_bond=4, final_contract=False), gauge=True, orderdep="truncation")]
+    T[t2("contract_ctmrg")] = [Case("TN2Dbig", A(max_bond=4), collapse=True, gauge=True, orderdep="truncation"), Case("TN2Dbig", A(max_bond=4, final_contract=False), gauge=True, orderdep="truncation")]
     v2 = lambda n: ("TensorNetwork2DVector", n)  # noqa
     T[v2("reindex_sites")] = [Case("PEPS", A("q{},{}")), Case("PEPS", A("q{},{}", where=((0, 0), (1, 2))))]
     T[v2("gate")] = [Case("PEPS", lambda x, h: ((h.G(2), (0, 1)), {})), Case("PEPS", lambda x, h: ((h.G(4), ((0, 0), (0, 1))), {"contract": "reduce-split", "cutoff": 0.0}), gauge=True),
@@ -501,11 +529,11 @@ def _2d3d_table():
     T[("PEPO", "add_PEPO")] = [Case("PEPO", other_like("PEPO"))]
     t3 = lambda n: ("TensorNetwork3D", n)  # noqa
     T[t3("flatten")] = [Case("PEPS3DPEPS3D")]
-    T[t3("contract_boundary_from")] = [Case("TN3D", A((0, 1), (0, 1), (0, 1), "zmin", max_bond=8), gauge=True)]
+    T[t3("contract_boundary_from")] = [Case("TN3D", A((0, 1), (0, 1), (0, 1), "zmin", max_bond=8), gauge=True, noself=True)]
     T[t3("contract_boundary")] = [Case("TN3D", A(max_bond=8), collapse=True, gauge=True)]
-    T[t3("contract_ctmrg")] = [Case("TN3Dbig", A(max_bond=4), collapse=True, gauge=True)]
-    T[t3("coarse_grain_hotrg")] = [Case("TN3Dbig", A("x", max_bond=4), gauge=True)]
-    T[t3("contract_hotrg")] = [Case("TN3Dbig", A(max_bond=4), collapse=True, gauge=True)]
+    T[t3("contract_ctmrg")] = [Case("TN3Dbig", A(max_bond=4), collapse=True, gauge=True, orderdep="truncation")]
+    T[t3("coarse_grain_hotrg")] = [Case("TN3Dbig", A("x", max_bond=4), gauge=True, orderdep="truncation")]
+    T[t3("contract_hotrg")] = [Case("TN3Dbig", A(max_bond=4), collapse=True, gauge=True, orderdep="truncation")]
     T[("TensorNetwork3DVector", "gate")] = [Case("PEPS3D", lambda x, h: ((h.G(2), (0, 1, 1)), {})),
                                             Case("PEPS3D", lambda x, h: ((h.G(4), ((0, 0, 0), (0, 0, 1))), {"contract": "reduce-split", "cutoff": 0.0}), gauge=True)]
     return T
@@ -560,7 +588,7 @@ def cases_for(cn, name, quick):
     got = t.get((cn, name))
     if got is None or isinstance(got, str):
         return got if got is not None else []
-    return got[: (2 if quick else len(got))] if quick else got
+    return got
 
 
 # ----------------------------------------------------------------------------- operators
@@ -576,13 +604,17 @@ def _binop_cases_for(cn, sym):
     def T_other(x, h):
         return ((R_T(h.seed + 50).transpose("c", "d", "a", "b"),), {})
 
+    def T_other2(x, h):
+        return ((R_T(h.seed + 51).transpose("b", "a", "d", "c"),), {})
+
     def T_bcast(x, h):
         return ((qtn.Tensor(_c(_rng(h.seed, 70), (3, 2)), inds=("b", "e"), tags=("R",)),), {})
 
     B = {}
     nip = "__imul__/__itruediv__ scale by a number"
     for s in ("+", "-", "*", "/"):
-        B[("Tensor", s)] = [Case("T", T_other, label="T%sT" % s, noinpl=nip), Case("T", A(1.5 - 0.5j), label="T%sscalar" % s),
+        B[("Tensor", s)] = [Case("T", T_other, label="T%sT" % s, noinpl=nip), Case("T", T_other2, label="T%sT (2)" % s, noinpl=nip),
+                            Case("T", A(1.5 - 0.5j), label="T%sscalar" % s),
                             Case("T", T_bcast, label="T%sT broadcast" % s, noinpl=nip)]
     B[("Tensor", "**")] = [Case("T", A(2), label="T**int"), Case("Tpos", lambda x, h: ((qtn.Tensor(np.abs(_rng(h.seed, 72).standard_normal((2, 2, 3))) + 0.5, inds=("c", "a", "b"), tags=("R",)),), {}), label="T**T")]
     for s in ("r+", "r-", "r*", "r/"):
@@ -610,5 +642,6 @@ def _binop_cases_for(cn, sym):
     for s in ("+", "-"):
         B[("TensorNetworkGen", s)] = [Case("TNV", other_like("TNV"), label="TNV%sTNV" % s), Case("MPS", other_like("MPS"), label="MPS%sMPS" % s),
                                       Case("MPO", other_like("MPO"), label="MPO%sMPO" % s), Case("PEPS", other_like("PEPS"), label="PEPS%sPEPS" % s),
-                                      Case("PEPO", other_like("PEPO"), label="PEPO%sPEPO" % s), Case("MPSc", other_like("MPSc"), label="cyclic MPS%sMPS" % s)]
+                                      Case("PEPO", other_like("PEPO"), label="PEPO%sPEPO" % s), Case("MPSc", other_like("MPSc"), label="cyclic MPS%sMPS" % s),
+                                      Case("TNVprod", other_like("TNVprod"), label="product%sproduct" % s)]
     return B.get((cn, sym), [])
